@@ -114,6 +114,56 @@ CHECKS["C14"] = dict(
     note="trusted: CrossHair, z3, vf.lpe. The battery family is a finite product (exhaustion == enumeration); key slots cannot be symbolic in CrossHair (hashing realises the value).",
 )
 
+FILES = "exhaustive enumeration of finite selectors (configuration / fault boundary / operation) driven by the solver-based path engine over the real code on real files, against the reference model"
+NOTE_FILES = (
+    "trusted: vf.files I/O proxies (rebinding open/os/shutil/NamedTemporaryFile inside tinyflux.storages at run time), vf.model, "
+    "the independent reader. Every symbolic variable is a finite selector, so exhausting the decision tree equals enumerating the "
+    "product; the solver adds no deductive power here (stated in DESIGN.md 5)."
+)
+CHECKS["C04"] = dict(
+    technique=FILES,
+    text="For 4 encodings x 5 csv dialects x flush_on_insert x compact prefixes x 7 write/read histories x 121 content pairs (strings with "
+    "delimiters, quotes, CR, LF, non-ASCII) the database file is decoded by an independent csv reader after every call (after "
+    "close() when flush_on_insert is off) and through a fresh read-only TinyFlux, and must equal the model's contents in order.",
+    design_ref="DESIGN.md 4 C04, 5",
+    note=NOTE_FILES,
+)
+CHECKS["C12"] = dict(
+    technique=FILES,
+    text="Process death is simulated at every I/O call boundary (and at three points inside a file copy) of insert, insert_multiple, update, "
+    "update_all, remove, drop_measurement, remove_all and Measurement.remove_all on a 3-point CSV database: the bytes on disk at that "
+    "instant, read through an independent handle, must decode to the old or the new contents (insert_multiple: old + prefix) and a "
+    "fresh TinyFlux must open them.",
+    design_ref="DESIGN.md 2.3, 4 C12, 5",
+    note=NOTE_FILES,
+    category="fault_enumeration",
+)
+CHECKS["C13"] = dict(
+    technique=FILES,
+    text="One OSError is injected at every I/O call of every operation (before the call; after it for write/flush/fsync/truncate/close): the "
+    "error must reach the caller, the file must decode to old or new contents, every later answer of the live object must equal what "
+    "its own storage holds or be an exception, and after a further write, close and reopen only stored points may be present.",
+    design_ref="DESIGN.md 2.3, 4 C13, 5",
+    note=NOTE_FILES,
+    category="fault_enumeration",
+)
+CHECKS["C15"] = dict(
+    technique=FILES,
+    text="40 read / getter / iteration / reindex / no-op-write / real-write operations x access modes {r+, r, a, w+} x 6 preceding histories x "
+    "auto_index: file bytes identical for reads and no-op writes, writes on a read-only database raise, and the directory "
+    "listings of the temp directory and the database directory are identical before and after every call, returned or raised.",
+    design_ref="DESIGN.md 4 C15, 5",
+    note=NOTE_FILES,
+)
+CHECKS["C16"] = dict(
+    technique="symbolic execution of CSVStorage.append / _insert_helper over an abstract file whose length and cursor are unbounded symbolic integers (z3), plus recorded real-file runs",
+    text="The primary handle is replaced by a FakeFile with symbolic length L and cursor pos (0 <= pos <= L, unbounded): on every path no "
+    "read happens, every write lands at an offset >= L, nothing is truncated below L, and the I/O call sequence equals the one "
+    "for an empty file - for all sizes and cursor positions at once. Real-file runs check the byte-prefix property and identical "
+    "recorded call lists for 0..3 stored points after early-stopping reads.",
+    design_ref="DESIGN.md 4 C16",
+)
+
 NOT_YET = {}
 
 
